@@ -55,6 +55,12 @@ class Type:
     def __hash__(self):
         return hash((self._type, self.user_type_name))
 
+    @property
+    def is_unknown(self):
+        # the unknown type compares unequal to everything, itself
+        # included, so "== Type.UNKNOWN" can never be used to test for it
+        return self._type == BuiltinType.UNKNOWN
+
     def __repr__(self):
         if self._type == BuiltinType.UNKNOWN:
             s = 'Type.UNKNOWN'
@@ -627,8 +633,7 @@ class BinaryOp(Expr):
 
     @property
     def type(self):
-        if self.left.type == Type.UNKNOWN or \
-           self.right.type == Type.UNKNOWN:
+        if self.left.type.is_unknown or self.right.type.is_unknown:
             return Type.UNKNOWN
 
         if self.op.is_logical:
@@ -664,7 +669,7 @@ class BinaryOp(Expr):
             else:
                 return Type.LONG
 
-        if ltype == Type.UNKNOWN or rtype == Type.UNKNOWN:
+        if ltype.is_unknown or rtype.is_unknown:
             return Type.UNKNOWN
         if ltype.is_user_defined or rtype.is_user_defined:
             return Type.UNKNOWN
@@ -816,7 +821,7 @@ class UnaryOp(Expr):
 
     @property
     def type(self):
-        if self.arg.type == Type.UNKNOWN:
+        if self.arg.type.is_unknown:
             return Type.UNKNOWN
 
         if self.op.is_logical:
